@@ -63,7 +63,7 @@ def routes(ctx):
     chain = _chain_back(b, auth)
     chain_bbs = {c.bb for c in chain}
     adders = [c for c in b.calls if ROUTE_ADDERS.search(c.f)]
-    if not R.floor(len(adders), 7, "routes", "Router::route calls"):
+    if not R.floor(len(adders), 4, "routes", "Router::route calls"):
         return
     for c in adders:
         k = op_const(c.args[1]) if len(c.args) > 1 else None
@@ -348,7 +348,7 @@ def ro_subs(ctx):
     F = ctx.F
     R = ctx.rule("C17.ro-subs", "K2+K4", "subscription SQL: only a single SELECT is accepted; client-derived statements are stepped only inside transactions of the state connection that are never committed")
     mbodies = [b for b in F.bodies.values() if re.match(r"^klukai_types::pubsub::(Matcher::|dump_query_plan)", b.id)]
-    if not R.floor(len(mbodies), 20, "matcher-bodies", "bodies of Matcher"):
+    if not R.floor(len(mbodies), 10, "matcher-bodies", "bodies of Matcher"):
         return
     n_commit = 0
     for b in mbodies:
@@ -359,7 +359,7 @@ def ro_subs(ctx):
                 ok = bool(roots) and all(r == "self.conn" for r in roots)
                 R.require(ok, "commit@%s#%d" % (F.root_fn(b).id.rsplit("::", 1)[-1], c.line and n_commit), c.where(), "committed transaction belongs to the subscription's own database (self.conn)",
                           fail_msg="a transaction rooted in %s is committed in %s: statements derived from client SQL run in state-connection transactions, which must never commit" % (sorted(roots) or "?", b.id))
-    R.floor(n_commit, 5, "commits", "commit sites in Matcher")
+    R.floor(n_commit, 3, "commits", "commit sites in Matcher")
     # direct statements on the state connection (not through a transaction)
     n = 0
     for b in mbodies:
